@@ -7,6 +7,9 @@
 (*   - one account on the non-factory denoms (native, factory/x, factory//x, bad creator); *)
 (*   - creation of every sub-denom (also the one named like the native denom) and          *)
 (*     creation with somebody else as creator.                                             *)
+(*   - delegated signing: where the genesis holds a fee allowance creator -> signer, the   *)
+(*     grantee signs creations and every privileged message in the granter's name;         *)
+(*   - the genesis round trip (Reimport) from every state.                                 *)
 (* The sub-denomination is a dimension of its own: the model's sub-denom slots are bound,  *)
 (* per history, to literal strings of the classes below (Bindings); the binding and the    *)
 (* genesis variant (native denom with / without bank metadata) are the first entry of the   *)
@@ -19,6 +22,11 @@
 EXTENDS TokenFactory, Json
 CONSTANTS EmitAt, MaxMinted,
           Bindings,     \* set of <<class of slot 1, class of slot 2>>
+          Tails,        \* cover mode: TRUE = one history per distinct state, ending with every attempt rejected there;
+                        \* FALSE = one history per distinct (incoming accepted action, state) at the depth bound, no rejected attempts
+          ReimportInView, \* cover mode: TRUE = "a round trip happened" is part of the view (at most one per history), so
+                        \* every action is also tried AFTER a round trip; FALSE = the round trip is tried from every state
+                        \* and its history ends there
           ProbeDepth    \* cover mode: attempts on unknown / non-factory denoms only from states reached by at most that many steps
 VARIABLE hist
 
@@ -28,6 +36,10 @@ SubClasses == 1..10
 PlainBinding == {<<1, 2>>}
 \* every class once, paired with the class a cleaning join would merge it with / with another climber
 HostileBindings == {<<1, 7>>, <<9, 1>>, <<3, 8>>, <<4, 5>>, <<6, 10>>}
+NoGrants == {{}}
+AdminGrants == {{<<1, 2>>}}        \* account 1 (the one that can pay two creations) lets account 2 sign for it
+SimGrants == {{}, {<<1, 2>>}, {<<1, 2>>, <<2, 3>>}, {<<2, 1>>, <<3, 1>>}}
+FundsOne == <<1, 0, 0>>
 NoProbes == -1      \* value for ProbeDepth (cfg files cannot hold negative numbers)
 AllBindings == {<<a, b>> : a \in SubClasses, b \in SubClasses} \ {<<a, a>> : a \in SubClasses}
 Other(a) == (a % Cardinality(Accounts)) + 1
@@ -35,49 +47,83 @@ Created == DOMAIN denoms
 Probe == CHOOSE a \in Accounts : \A b \in Accounts : a <= b
 OneAmt == CHOOSE x \in Amounts : \A y \in Amounts : x <= y
 
-GCreate == \/ \E who \in Accounts, sub \in SubsX : Create(who, who, sub)
-           \/ \E who \in Accounts : Create(who, Other(who), CHOOSE s \in Subs : TRUE)
-GStored == \E d \in Created, who \in Accounts :
-   LET adm == who = AdminOf(d) IN
-   \/ \E amt \in (IF adm THEN Amounts ELSE {OneAmt}) : Mint(who, who, d, amt) \/ Burn(who, who, d, amt)
-   \/ \E new \in (IF adm THEN NewAdmins ELSE {who}) : ChangeAdmin(who, who, d, new)
-   \/ SetMetadata(who, who, d)
-   \/ /\ ~adm /\ AdminOf(d) # NoAdmin
-      /\ LET as == AdminOf(d) IN
-           \/ Mint(who, as, d, OneAmt) \/ Burn(who, as, d, OneAmt)
-           \/ ChangeAdmin(who, as, d, who) \/ SetMetadata(who, as, d)
-GUnknown == \E d \in Factory \ Created :
-   \/ LET c == d[1] IN \/ Mint(c, c, d, OneAmt) \/ Burn(c, c, d, OneAmt)
-                       \/ ChangeAdmin(c, c, d, c) \/ SetMetadata(c, c, d)
-   \/ LET x == Other(d[1]) IN Mint(x, x, d, OneAmt) \/ ChangeAdmin(x, x, d, x)
-GSpecial == \E d \in Specials : LET p == Probe IN
-   \/ Mint(p, p, d, OneAmt) \/ Burn(p, p, d, OneAmt) \/ ChangeAdmin(p, p, d, p) \/ SetMetadata(p, p, d)
+\* ---- the attempts, as data: records [act, who, as, c, s, amt, new] -----------------------------------------------
+R(a, who, as, d, amt, new) == Rec(a, who, as, d[1], d[2], amt, new)
+CCreate == {Rec("Create", who, who, 0, sub, 0, 0) : who \in Accounts, sub \in SubsX}
+           \cup {Rec("Create", who, Other(who), 0, CHOOSE s \in Subs : TRUE, 0, 0) : who \in Accounts}
+           \cup {Rec("Create", p[2], p[1], 0, sub, 0, 0) : p \in grants, sub \in Subs}   \* the grantee creates in the granter's name
+COn(d, who) ==
+   LET adm == who = AdminOf(d)
+       as  == AdminOf(d)
+       own == IF adm THEN Amounts ELSE {OneAmt}
+   IN  {R("Mint", who, who, d, amt, 0) : amt \in own} \cup {R("Burn", who, who, d, amt, 0) : amt \in own}
+       \cup {R("ChangeAdmin", who, who, d, 0, new) : new \in (IF adm THEN NewAdmins ELSE {who})}
+       \cup {R("SetMetadata", who, who, d, 0, 0)}
+       \* signing in the admin's name: rejected, or delegated if the admin granted an allowance
+       \cup (IF adm \/ as = NoAdmin THEN {}
+             ELSE LET del == IF Authorised(who, as) THEN Amounts ELSE {OneAmt} IN
+                  {R("Mint", who, as, d, amt, 0) : amt \in del} \cup {R("Burn", who, as, d, amt, 0) : amt \in del}
+                  \cup {R("ChangeAdmin", who, as, d, 0, who), R("SetMetadata", who, as, d, 0, 0)})
+CStored == UNION {COn(d, who) : d \in Created, who \in Accounts}
+CUnknown == UNION {LET c == d[1]  x == Other(d[1]) IN
+                   {R("Mint", c, c, d, OneAmt, 0), R("Burn", c, c, d, OneAmt, 0), R("ChangeAdmin", c, c, d, 0, c),
+                    R("SetMetadata", c, c, d, 0, 0), R("Mint", x, x, d, OneAmt, 0), R("ChangeAdmin", x, x, d, 0, x)}
+                   : d \in Factory \ Created}
+CSpecial == UNION {LET p == Probe IN
+                   {R("Mint", p, p, d, OneAmt, 0), R("Burn", p, p, d, OneAmt, 0), R("ChangeAdmin", p, p, d, 0, p),
+                    R("SetMetadata", p, p, d, 0, 0)} : d \in Specials}
+Reimported == \E i \in 2..Len(hist) : hist[i].act = "Reimport"
+CReimport == IF ReimportInView /\ Reimported THEN {} ELSE {Rec("Reimport", 0, 0, 0, 0, 0, 0)}
+CAll == CCreate \cup CStored \cup CUnknown \cup CSpecial \cup CReimport
 
-GAct == GCreate \/ GStored \/ GUnknown \/ GSpecial
+Do(r) == CASE r.act = "Create"      -> Create(r.who, r.as, r.s)
+           [] r.act = "Mint"        -> Mint(r.who, r.as, <<r.c, r.s>>, r.amt)
+           [] r.act = "Burn"        -> Burn(r.who, r.as, <<r.c, r.s>>, r.amt)
+           [] r.act = "ChangeAdmin" -> ChangeAdmin(r.who, r.as, <<r.c, r.s>>, r.new)
+           [] r.act = "SetMetadata" -> SetMetadata(r.who, r.as, <<r.c, r.s>>)
+           [] r.act = "Reimport"    -> Reimport
+WhyOf(r) == CASE r.act = "Create"   -> CreateWhy(r.who, r.as, r.s)
+           [] r.act = "Mint"        -> MintWhy(r.who, r.as, <<r.c, r.s>>)
+           [] r.act = "Burn"        -> BurnWhy(r.who, r.as, <<r.c, r.s>>, r.amt)
+           [] r.act = "ChangeAdmin" -> ChangeAdminWhy(r.who, r.as, <<r.c, r.s>>, r.new)
+           [] r.act = "SetMetadata" -> SetMetadataWhy(r.who, r.as, <<r.c, r.s>>)
+           [] r.act = "Reimport"    -> "ok"
 
 Step(r) == [act |-> r.act, args |-> [who |-> r.who, as |-> r.as, c |-> r.c, s |-> r.s, amt |-> r.amt, new |-> r.new]]
-\* the first entry tells the driver which genesis to build (creation fees every account can pay)
-GInit == \E b \in Bindings, m \in NativeMetas :
-           InitWith(m) /\ hist = <<[act |-> "Genesis", args |-> [funds |-> Funds, subs |-> b, nmeta |-> m]]>>
-GNext == GAct /\ hist' = Append(hist, Step(last'))
-
-\* the incoming action and its result are part of the view: a rejected message leaves the state
-\* unchanged and still gets a history of its own
-GView == <<hist[1], last, res, svars>>
+RECURSIVE SetToSeq(_)
+SetToSeq(S) == IF S = {} THEN <<>> ELSE LET x == CHOOSE y \in S : TRUE IN <<x>> \o SetToSeq(S \ {x})
+\* the first entry tells the driver which genesis to build (creation fees every account can pay, strings behind the
+\* sub-denom slots, native metadata, fee allowances)
+GInit == \E b \in Bindings, m \in NativeMetas, g \in GrantSets :
+           InitWith(m, g) /\ hist = <<[act |-> "Genesis", args |-> [funds |-> Funds, subs |-> b, nmeta |-> m, grants |-> g]]>>
 GConstr == /\ nops <= MaxOps
            /\ \A d \in AllDenoms : minted[d] <= MaxMinted
-\* cover mode: emit at rejected steps (their continuations are those of the unchanged state) and at the bound;
-\* shorter successful histories are prefixes of emitted ones
-EmitCond == nops >= 1 /\ (res # "ok" \/ nops = MaxOps)
-\* the outcome of an attempt on a never created or non-factory denom depends on nothing but that denom, so cover mode
-\* tries them near the initial state only (ProbeDepth); simulate mode mixes them into long walks
-GActC == GCreate \/ GStored \/ (nops <= ProbeDepth /\ (GUnknown \/ GSpecial))
-GNextC == (IF EmitCond THEN PrintT(<<"HIST", ToJson(hist)>>) ELSE TRUE)
-          /\ GActC /\ hist' = Append(hist, Step(last'))
-\* simulate mode: attempts on unknown / non-factory denoms only at every fourth step (otherwise random walks
-\* consist of almost nothing else); the walk is emitted once, when the state reached after EmitAt steps is expanded
-\* (an INVARIANT would print every candidate successor of the last level)
-GActS == IF nops % 4 = 3 THEN GAct ELSE GCreate \/ GStored
+
+\* ---- cover mode ------------------------------------------------------------------------------------------------
+\* TLC explores the ACCEPTED attempts only.
+\* Tails = TRUE: one view per distinct (genesis, state); when a state is expanded, one history is emitted: the way to
+\* the state followed by EVERY attempt the model rejects there, one after the other (a rejected message leaves the state
+\* unchanged -- which the trace specification checks, C16.FailureIsNoop -- so the model's verdict on each of them is the
+\* same as if it had been tried alone).
+\* Tails = FALSE: one view per distinct (genesis, incoming accepted action, state), so every accepted attempt is executed
+\* from every state it is accepted in; the histories are emitted at the depth bound (shorter ones are their prefixes).
+\* The outcome of an attempt on a never created or non-factory denom depends on nothing but that denom, so cover mode
+\* tries them near the initial state only (ProbeDepth); simulate mode mixes them into long walks.
+\* With ReimportInView, "a genesis round trip happened" is part of the view (at most one per history) and only the
+\* histories that contain one are emitted: every attempt is also tried AFTER a round trip.
+CandsC == CCreate \cup CStored \cup CReimport \cup (IF nops <= ProbeDepth THEN CUnknown \cup CSpecial ELSE {})
+Rejected == SetToSeq({Step(r) : r \in {x \in CandsC : WhyOf(x) # "ok"}})
+GView == <<hist[1], IF Tails THEN 0 ELSE last, svars, ReimportInView /\ Reimported>>
+EmitCond == /\ ReimportInView => Reimported
+            /\ Tails \/ nops = MaxOps
+GNextC == (IF EmitCond THEN PrintT(<<"HIST", ToJson(IF Tails THEN hist \o Rejected ELSE hist)>>) ELSE TRUE)
+          /\ \E r \in CandsC : WhyOf(r) = "ok" /\ Do(r) /\ hist' = Append(hist, Step(last'))
+
+\* ---- simulate mode ---------------------------------------------------------------------------------------------
+\* random walks over accepted and rejected attempts; attempts on unknown / non-factory denoms only at every fourth step
+\* (otherwise walks consist of almost nothing else); the walk is emitted once, when the state reached after EmitAt steps
+\* is expanded (an INVARIANT would print every candidate successor of the last level)
+CandsS == IF nops % 4 = 3 THEN CAll ELSE CCreate \cup CStored \cup CReimport
 GNextS == (IF nops = EmitAt THEN PrintT(<<"HIST", ToJson(hist)>>) ELSE TRUE)
-          /\ GActS /\ hist' = Append(hist, Step(last'))
+          /\ \E r \in CandsS : Do(r) /\ hist' = Append(hist, Step(last'))
 =============================================================================
